@@ -17,6 +17,21 @@
 //       weighted quadratic Q (normal equations of Q built here in double, dense solve);
 //   W<1 a two-net gadget: one cell pulled by a weight≥1 net and a weight<1 net sits at the weighted
 //       mean, and not where it would sit if the light net had weight 0.
+//   CL  through the Circuit path: NetModel::xTopology(circuit).solveStar() / yTopology(...) equals the
+//       minimiser of the documented weighted quadratic built here, in double, from the *circuit's own*
+//       accessors (Circuit::netWeight(i), pinCell, pinXOffset, isFixed, x, placedWidth,
+//       computePlacementArea): a net without movable pin or with a single pin contributes nothing, the
+//       fixed pins of a net act through their extreme positions clamped to the placement area, a net
+//       with two such pins costs W (p0 - p1)², a larger one (W/nb) Σ (p_i - s)².  Circuits are mostly
+//       two-pin nets with non-uniform weights and degenerate nets (dangling pin, pads only, empty)
+//       interleaved.
+//
+// Topology correspondence (no hook needed): random circuits (vc::genCircuit cells/rows/pads, all eight
+// orientations, nets built here: ordinary, two-pin, repeated cells, pads inside and outside the
+// placement area, degenerate nets interleaved, non-uniform float weights) → NetModel::xTopology /
+// yTopology → the stored net list read through the public accessors (nbNets, nbPins, pinCell,
+// pinOffset, netWeight), printed exactly, must equal the Lean model `NetTopology.topology` of the
+// same circuit (coordinates are small integers, so every float conversion is exact).
 #include <algorithm>
 #include <cmath>
 #include <cstring>
@@ -151,7 +166,8 @@ static void armHook(bool) { g_cap = Captured(); }
 struct Dense {
   int n = 0;
   std::vector<double> a, b;  // row-major n×n, rhs
-  explicit Dense(int n_ = 0) : n(n_), a((size_t)n_ * n_, 0.0), b(n_, 0.0) {}
+  std::vector<double> babs;  // Σ |contribution| per rhs entry (magnitude of what the float accumulation rounds)
+  explicit Dense(int n_ = 0) : n(n_), a((size_t)n_ * n_, 0.0), b(n_, 0.0), babs(n_, 0.0) {}
   double &at(int i, int j) { return a[(size_t)i * n + j]; }
   double at(int i, int j) const { return a[(size_t)i * n + j]; }
 };
@@ -216,32 +232,19 @@ static Dense denseFromCapture(const Captured &c) {
 // property statement (independent of MatrixCreator):
 //   Q(x) = Σ_{2-pin nets} W (p0 - p1)² + Σ_{nets with nb ≥ 3 pins} (W/nb) Σ_i (p_i - s_net)²
 // with p = x_cell + offset for a movable pin and p = position for a fixed pin.
-static Dense denseFromQ(const Case &c) {
-  struct P { int cell; double off; };
-  std::vector<std::pair<double, std::vector<P>>> stored;
-  for (auto &n : c.nets) {
-    std::vector<P> pins;
-    for (size_t i = 0; i < n.cells.size(); ++i) pins.push_back({n.cells[i], n.offs[i]});
-    if (n.five) {
-      if (pins.empty()) continue;
-      if (std::isfinite(n.mn)) {
-        pins.push_back({-1, n.mn});
-        if (n.mx != n.mn) pins.push_back({-1, n.mx});
-      }
-    }
-    if (pins.size() <= 1) continue;
-    stored.push_back({(double)n.w, pins});
-  }
-  int nv = c.nbCells;
+struct QPin { int cell; double off; };  // cell (-1 = fixed) and offset (fixed: position)
+typedef std::vector<std::pair<double, std::vector<QPin>>> QNets;
+static Dense denseFromStored(int nbCells, const QNets &stored) {
+  int nv = nbCells;
   for (auto &s : stored) if (s.second.size() > 2) ++nv;
   Dense d(nv);
   auto term = [&](double w, int ca, double oa, int cb, double ob) {  // w (pa - pb)²
     if (ca == cb) return;
-    if (ca >= 0) { d.at(ca, ca) += w; d.b[ca] += w * (ob - oa); }
-    if (cb >= 0) { d.at(cb, cb) += w; d.b[cb] += w * (oa - ob); }
+    if (ca >= 0) { d.at(ca, ca) += w; d.b[ca] += w * (ob - oa); d.babs[ca] += std::fabs(w * (ob - oa)); }
+    if (cb >= 0) { d.at(cb, cb) += w; d.b[cb] += w * (oa - ob); d.babs[cb] += std::fabs(w * (oa - ob)); }
     if (ca >= 0 && cb >= 0) { d.at(ca, cb) -= w; d.at(cb, ca) -= w; }
   };
-  int next = c.nbCells;
+  int next = nbCells;
   for (auto &s : stored) {
     auto &pins = s.second;
     if (pins.size() == 2) term(s.first, pins[0].cell, pins[0].off, pins[1].cell, pins[1].off);
@@ -256,6 +259,25 @@ static Dense denseFromQ(const Case &c) {
     if (empty && d.b[i] == 0) d.at(i, i) = 1.0;  // untouched unknown: the solver keeps it at 0
   }
   return d;
+}
+
+static Dense denseFromQ(const Case &c) {
+  typedef QPin P;
+  QNets stored;
+  for (auto &n : c.nets) {
+    std::vector<P> pins;
+    for (size_t i = 0; i < n.cells.size(); ++i) pins.push_back({n.cells[i], n.offs[i]});
+    if (n.five) {
+      if (pins.empty()) continue;
+      if (std::isfinite(n.mn)) {
+        pins.push_back({-1, n.mn});
+        if (n.mx != n.mn) pins.push_back({-1, n.mx});
+      }
+    }
+    if (pins.size() <= 1) continue;
+    stored.push_back({(double)n.w, pins});
+  }
+  return denseFromStored(c.nbCells, stored);
 }
 
 // ---------------------------------------------------------------------------------- generators
@@ -593,6 +615,242 @@ static void placeGlobalOracle(vh::Out &out, const std::string &id, vh::Rng &g) {
   if (r1 != r2) out.fail(id, "placeGlobal result changes when all net weights and the penalty are scaled by 2^" + std::to_string(k), in.str());
 }
 
+
+// ---------------------------------------------------------------------------------- Circuit path
+// Normal equations of the documented quadratic of the initial solve of a *circuit* along one axis,
+// from the circuit's public accessors only (weights: Circuit::netWeight(i) of the net itself).
+static Dense denseFromCircuit(const Circuit &c, bool xa, bool &twoPinOnly) {
+  Rectangle area = c.computePlacementArea();
+  double lo = xa ? area.minX : area.minY, hi = xa ? area.maxX : area.maxY;
+  QNets stored;
+  twoPinOnly = true;
+  for (int i = 0; i < c.nbNets(); ++i) {
+    std::vector<QPin> pins;
+    bool anyFixed = false;
+    double fmin = 0, fmax = 0;
+    for (int j = 0; j < c.nbPinsNet(i); ++j) {
+      int cell = c.pinCell(i, j);
+      double off = xa ? c.pinXOffset(i, j) : c.pinYOffset(i, j);
+      if (c.isFixed(cell)) {
+        double pos = (xa ? c.x(cell) : c.y(cell)) + off;
+        if (!anyFixed) { fmin = fmax = pos; anyFixed = true; }
+        else { fmin = std::min(fmin, pos); fmax = std::max(fmax, pos); }
+      } else {
+        pins.push_back({cell, off - 0.5 * (xa ? c.placedWidth(cell) : c.placedHeight(cell))});
+      }
+    }
+    if (pins.empty()) continue;  // nothing movable on this net
+    if (anyFixed) {
+      fmin = std::max(fmin, lo);
+      fmax = std::min(fmax, hi);
+      pins.push_back({-1, fmin});
+      if (fmax != fmin) pins.push_back({-1, fmax});
+    }
+    if (pins.size() <= 1) continue;  // dangling pin
+    if (pins.size() > 2) twoPinOnly = false;
+    stored.push_back({(double)c.netWeight(i), pins});
+  }
+  return denseFromStored(c.nbCells(), stored);
+}
+
+static float topoWeight(vh::Rng &g) {
+  int m = g.range(0, 9);
+  if (m == 0) return pow2(g.range(-6, 6));
+  if (m == 1) return (float)g.range(1, 64) / 16.0f;
+  return anyWeight(g);
+}
+
+// Random circuit for the Circuit path: cells / rows / pads from vc::genCircuit (no nets), possibly one more
+// movable cell turned into a pad, and a net list built here.  lsq: mostly two-pin nets, every movable
+// cell anchored to a pad with probability 3/4 (so that most systems are non-singular).
+static Circuit genNetCircuit(vh::Rng &g, vh::Out &out, bool lsq, const std::string &pfx, bool &shiftVisible) {
+  vc::GenOpts o;
+  o.maxRows = 5;
+  o.maxCells = lsq ? 8 : 10;
+  o.nets = false;
+  o.splitRows = g.chance(1, 2);
+  Circuit c = vc::genCircuit(g, o);
+  int n = c.nbCells();
+  std::vector<bool> fx = c.cellIsFixed();
+  std::vector<int> mov, fix;
+  auto split = [&]() {
+    mov.clear(); fix.clear();
+    for (int i = 0; i < n; ++i) (fx[i] ? fix : mov).push_back(i);
+  };
+  split();
+  if (mov.size() >= 2 && (fix.empty() ? (lsq || g.chance(1, 2)) : g.chance(1, 4))) {
+    fx[g.pick(mov)] = true;
+    split();
+    c.setCellIsFixed(fx);
+  }
+  struct CNet { std::vector<int> cells, xo, yo; float w; };
+  std::vector<CNet> nets;
+  auto pin = [&](CNet &nt, int cell) {
+    nt.cells.push_back(cell);
+    nt.xo.push_back(g.range(-2, c.cellWidth()[cell] + 2));
+    nt.yo.push_back(g.range(-2, c.cellHeight()[cell] + 2));
+  };
+  bool big = !lsq || g.chance(1, 4);  // nets with more than two pins allowed
+  int nn = g.range(1, 2 * n + 4);
+  for (int k = 0; k < nn; ++k) {
+    CNet nt;
+    nt.w = topoWeight(g);
+    int kind = g.range(0, 11);
+    if (kind <= 3) {  // two-pin net on any two cells (pads included, the same cell twice possible)
+      pin(nt, g.range(0, n - 1));
+      pin(nt, g.range(0, n - 1));
+    } else if (kind == 4 && !mov.empty()) {  // dangling pin on a movable cell
+      pin(nt, g.pick(mov));
+    } else if (kind == 5 && !fix.empty()) {  // pads only
+      int d = g.range(1, 3);
+      for (int i = 0; i < d; ++i) pin(nt, g.pick(fix));
+    } else if (kind == 6 && !mov.empty() && !fix.empty()) {  // movable cell to a pad
+      pin(nt, g.pick(mov));
+      pin(nt, g.pick(fix));
+      if (g.chance(1, 2)) std::swap(nt.cells[0], nt.cells[1]), std::swap(nt.xo[0], nt.xo[1]), std::swap(nt.yo[0], nt.yo[1]);
+    } else if (kind == 7 && !mov.empty()) {  // the same movable cell twice
+      int cell = g.pick(mov);
+      pin(nt, cell);
+      pin(nt, cell);
+    } else if (kind == 8 && g.chance(1, 3)) {  // empty net (setNets accepts it)
+    } else if (kind == 9 && !mov.empty() && !fix.empty() && big) {  // one movable cell and several pad pins
+      pin(nt, g.pick(mov));
+      int d = g.range(2, 3);
+      for (int i = 0; i < d; ++i) pin(nt, g.pick(fix));
+    } else if (big) {  // ordinary net of 2..5 pins
+      int d = g.range(2, 5);
+      for (int i = 0; i < d; ++i) pin(nt, g.range(0, n - 1));
+    } else {
+      pin(nt, g.range(0, n - 1));
+      pin(nt, g.range(0, n - 1));
+    }
+    nets.push_back(nt);
+  }
+  if (lsq && !fix.empty()) {
+    for (int cell : mov) {
+      if (!g.chance(3, 4)) continue;
+      CNet nt;
+      nt.w = topoWeight(g);
+      pin(nt, cell);
+      pin(nt, g.pick(fix));
+      nets.insert(nets.begin() + g.range(0, nets.size()), nt);
+    }
+  }
+  if (g.chance(1, 8)) for (auto &nt : nets) nt.w = nets[0].w;  // uniform weights now and then
+  std::vector<int> limits = {0}, cells, xo, yo;
+  std::vector<float> w;
+  for (auto &nt : nets) {
+    cells.insert(cells.end(), nt.cells.begin(), nt.cells.end());
+    xo.insert(xo.end(), nt.xo.begin(), nt.xo.end());
+    yo.insert(yo.end(), nt.yo.begin(), nt.yo.end());
+    limits.push_back(cells.size());
+    w.push_back(nt.w);
+  }
+  c.setNets(limits, cells, xo, yo, w);
+  // measured distribution: which nets carry wirelength (independent of NetModel)
+  int kept = 0, skipped = 0;
+  shiftVisible = false;
+  for (auto &nt : nets) {
+    int nm = 0; bool hf = false;
+    for (int cell : nt.cells) { if (fx[cell]) hf = true; else ++nm; }
+    bool keep = nm >= 1 && (nm >= 2 || hf);
+    if (keep) {
+      out.count(pfx + "_net_kept");
+      if (nt.w < 1) out.count(pfx + "_net_kept_weight_below_1");
+      if (skipped > 0 && nets[kept].w != nt.w) shiftVisible = true;  // net index != model index, and it matters
+      ++kept;
+    } else {
+      ++skipped;
+      out.count(pfx + (nt.cells.empty() ? "_net_skipped_empty" : (nm == 1 ? "_net_skipped_dangling_pin" : "_net_skipped_pads_only")));
+    }
+  }
+  if (skipped > 0) out.count(pfx + "_case_with_degenerate_net");
+  if (shiftVisible) out.count(pfx + "_case_degenerate_net_before_kept_net_of_other_weight");
+  if (!fix.empty()) out.count(pfx + "_case_with_pads");
+  return c;
+}
+
+static void emitTopology(std::ostream &os, const NetModel &m, const char *axis) {
+  os << "topo " << axis << " " << m.nbCells() << " " << m.nbNets() << "\n";
+  for (int i = 0; i < m.nbNets(); ++i) {
+    os << "tnet " << exactFloat(m.netWeight(i)) << " " << m.nbPins(i);
+    for (int j = 0; j < m.nbPins(i); ++j) os << " " << m.pinCell(i, j) << " " << exactFloat(m.pinOffset(i, j));
+    os << "\n";
+  }
+}
+
+static void topologyCase(vh::Out &out, const std::string &id, vh::Rng &g) {
+  bool shiftVisible = false;
+  Circuit c = genNetCircuit(g, out, false, "topo", shiftVisible);
+  std::string in = vc::circuitString(c);
+  vh::setCase(id, in);
+  std::ostringstream impl;
+  impl << "case " << id << "\n";
+  try {
+    emitTopology(impl, NetModel::xTopology(c), "x");
+    emitTopology(impl, NetModel::yTopology(c), "y");
+  } catch (const std::exception &e) {
+    out.fail(id, std::string("xTopology/yTopology threw on a valid circuit: ") + e.what(), in);
+    return;
+  }
+  out.ops << "case " << id << "\n" << in << "topo x\ntopo y\n";
+  out.impl << impl.str();
+  out.evaluations++;
+  out.count("topo_cases");
+  if (shiftVisible) out.nontrivial(vh::hashStr("t" + in));
+  if (out.samples.size() < 4) out.sample("topology: " + in);
+}
+
+// CL: the real solver through the Circuit path against the least-squares optimum for the circuit's own weights
+static void circuitLsqOracle(vh::Out &out, const std::string &id, vh::Rng &g) {
+  bool shiftVisible = false;
+  Circuit c = genNetCircuit(g, out, true, "CL", shiftVisible);
+  NetModel::Parameters p;
+  p.tolerance = g.chance(1, 3) ? 1.0e-6f : 1.0e-4f;
+  p.maxNbIterations = 1000;
+  for (int axis = 0; axis < 2; ++axis) {
+    bool xa = axis == 0;
+    std::ostringstream is;
+    is << (xa ? "xTopology" : "yTopology") << "(circuit).solveStar(tol=" << fstr(p.tolerance) << ",maxIter=" << p.maxNbIterations << ") "
+       << vc::circuitString(c);
+    std::string in = is.str();
+    vh::setCase(id, in);
+    bool twoPinOnly = true;
+    Dense d = denseFromCircuit(c, xa, twoPinOnly);
+    DenseSol s = denseSolve(d);
+    if (!s.ok) { out.count("CL_skipped_singular"); continue; }
+    out.evaluations++;
+    // the rhs entries are sums of terms w·(offset difference) that may cancel: the single-precision accumulation
+    // errs by a fraction of the *magnitude* of the terms, not of the sum
+    double bmag = 0;
+    for (double v : d.babs) bmag = std::max(bmag, v);
+    double T = solverTolerance(s, p.tolerance) + s.normInvInf * 1e-5 * bmag;
+    double scale = 1.0;
+    for (int i = 0; i < c.nbCells(); ++i) scale = std::max(scale, std::fabs(s.x[i]));
+    bool sharp = T <= 1e-2 * scale;
+    out.count(sharp ? "CL_tolerance_below_1pct_of_scale" : "CL_tolerance_loose");
+    out.count(twoPinOnly ? "CL_two_pin_nets_only" : "CL_with_star_nets");
+    if (sharp && shiftVisible) { out.nontrivial(vh::hashStr("q" + in)); out.count("CL_sharp_and_degenerate_before_kept"); }
+    std::vector<float> x;
+    try {
+      x = (xa ? NetModel::xTopology(c) : NetModel::yTopology(c)).solveStar(p);
+    } catch (const std::exception &e) {
+      out.fail(id, std::string("xTopology/yTopology/solveStar threw on a valid circuit: ") + e.what(), in);
+      return;
+    }
+    for (int i = 0; i < c.nbCells(); ++i) {
+      if (c.isFixed(i)) continue;
+      if (!(std::fabs((double)x[i] - s.x[i]) <= T)) {
+        std::ostringstream os;
+        os << "initial solve of the circuit (" << (xa ? "x" : "y") << " axis) puts the centre of cell " << i << " at " << fstr(x[i])
+           << " but the least-squares optimum for the circuit's own net weights has it at " << s.x[i] << " (allowed " << T << ")";
+        out.fail(id, os.str(), in);
+        return;
+      }
+    }
+  }
+}
+
 int main(int argc, char **argv) {
   vh::Args a = vh::parseArgs(argc, argv);
   vh::Out out(a.out);
@@ -602,7 +860,11 @@ int main(int argc, char **argv) {
       "penalty), assembled system captured by hook H2 and compared exactly; oracle: general float instances (weights 0.1..7.3 incl. "
       "fractional below 1, float offsets/placements, eps, penalties) solved by the real CG solver; non-trivial = the derived tolerance "
       "of the non-dyadic scaling / least-squares comparison is below 1% of the coordinate scale (so a mis-weighted net would be seen), "
-      "or a weight<1 gadget; distinct by the canonical text of the instance";
+      "or a weight<1 gadget; topology stream / oracle CL: circuits (1-13 cells incl. pads inside and outside the placement area, all "
+      "orientations, 1-30 nets: two-pin, repeated cells, pads, larger nets, with dangling-pin / pads-only / empty nets interleaved, "
+      "non-uniform float weights) through NetModel::xTopology/yTopology, non-trivial = a degenerate net precedes a kept net whose "
+      "weight differs from the weight at its NetModel index (and, for CL, the derived tolerance is below 1% of the scale); "
+      "distinct by the canonical text of the instance";
   out.count(HAS_H2 ? "hook_H2_present" : "hook_H2_absent");
   if (!HAS_H2) out.notes.push_back("hook H2 absent in this tree: assembled-system correspondence stream skipped; non-dyadic scaling oracle only for the initial star model");
 
@@ -646,11 +908,23 @@ int main(int argc, char **argv) {
       out.count(std::string("exact_mode_") + MODE_NAME[c.mode]);
       if (c.hasPen) out.count("exact_with_penalty");
       if (cap.matSize > cap.nbCells) out.count("exact_with_star_variables");
-      out.sample(c.str(true));
+      if (i < 2) out.sample(c.str(true));
       // on dyadic instances a power-of-two factor must also give the same solution
       std::vector<float> x2 = solveCase(c, 4.0f);
       if (!bitwiseEqual(x, x2)) out.fail(id, "scaling by 4 changes the solution: [" + vecStr(x) + "] vs [" + vecStr(x2) + "]", c.str(false));
     }
+  }
+
+  // --- topology correspondence + least squares through the Circuit path ----------------------------
+  long long nt = a.thorough() ? 20000 : (a.search() ? 0 : 1500);
+  for (long long i = 0; i < nt; ++i) {
+    vh::Rng g = vh::Rng::forCase(a.seed, 5000000 + i);
+    topologyCase(out, "t" + std::to_string(i), g);
+  }
+  long long nq = a.thorough() ? 20000 : (a.search() ? 8000 : 1500);
+  for (long long i = 0; i < nq; ++i) {
+    vh::Rng g = vh::Rng::forCase(a.seed, 6000000 + i);
+    circuitLsqOracle(out, "q" + std::to_string(i), g);
   }
 
   // --- scaling + least-squares oracles on general instances --------------------------------------
